@@ -151,6 +151,13 @@ def OpenerAt (n : Nat) (suf : List Char) (k : FaultKind) (off : Nat) : Prop :=
     ∃ r, skipGround suf = some ('"' :: r) ∧ scanDq r = none ∧ off = n - (r.length + 1) ∧ escMarks (off + 1) r = []
   | _ => False
 
+/-- none of the tokens the tokenizer reads before it stops is one of the constructs property C02
+excludes.  For a text whose quotes and comments are all closed this is `Admissible`; for a text with
+an unterminated quote or comment (which `Admissible` accepts whatever else it contains) it speaks
+about the tokens in front of the opener. -/
+def AdmissibleScan (t : List Char) : Bool :=
+  (scanStop t.length (t.length + 1) t).1.all (fun x => !tokExcluded t x)
+
 /-- the text `t` has a fault of kind `k` at offset `off` and nothing is wrong before it -/
 def SingleFault (t : List Char) (k : FaultKind) (off : Nat) : Prop :=
   match k with
